@@ -10,9 +10,17 @@ CONSTANTS MaxHist, EmitAt
 None == [none |-> TRUE]
 
 (* pattern spellings offered to Save/Del (non-canonical ones included)        *)
-Spellings == { <<"/","a">>, <<"/","a","/">>, <<"/","a","/","b","/">>, <<"/","a","/","b">>,
+SpellingsAll == { <<"/","a">>, <<"/","a","/">>, <<"/","a","/","b","/">>, <<"/","a","/","b">>,
                <<"/">>, <<"A","/">>, <<" ","/","a","/","/","B","/"," ">> }
-Urls == { <<"r",":","/","/","h","/","x">>, <<"r",":","/","/","h","/","x","/">>, <<"r",":","/","/","g">> }
+UrlsAll == { <<"r",":","/","/","h","/","x">>, <<"r",":","/","/","h","/","x","/">>, <<"r",":","/","/","g">> }
+(* overridable in a cfg (Spellings <- SpellingsDeep): one pattern, two urls, so that
+   much longer histories can be enumerated exhaustively                       *)
+Spellings == SpellingsAll
+Urls == UrlsAll
+KAs == BOOLEAN
+SpellingsDeep == { <<"/","a","/">> }
+UrlsDeep == { <<"r",":","/","/","h","/","x">>, <<"r",":","/","/","g">> }
+KAsDeep == {FALSE}
 (* request paths *)
 Reqs == { <<"/","a">>, <<"/","a","/","b">>, <<"/","a","/","b","/","c">>, <<"/","a","/","c">>,
           <<"/","b">>, <<"/","a","/">>, <<"/","a","/","b","/","c","/","d">>, <<"A","/","B","/","C">>,
@@ -61,7 +69,7 @@ Restart ==
 
 Init == tab = [k \in Pats |-> None] /\ disk = tab /\ hist = <<>>
 Next == /\ Len(hist) < MaxHist
-        /\ \/ \E s \in Spellings, u \in Urls, ka \in BOOLEAN : Save(s, u, ka)
+        /\ \/ \E s \in Spellings, u \in Urls, ka \in KAs : Save(s, u, ka)
            \/ \E s \in Spellings : Del(s)
            \/ Flush
            \/ Restart
